@@ -243,15 +243,21 @@ def r02_4(ctx: Ctx) -> None:
 def r02_5(ctx: Ctx) -> None:
     f = shared.szf(ctx, "_writeall")
     tests = {norm(n.test): n for n in walk(f.node) if isinstance(n, ast.If)}
-    link = [n for t, n in tests.items() if "is_symlink()" in t and "dereference" in t]
-    fil = [n for t, n in tests.items() if t.endswith("is_file()")]
-    dr = [n for t, n in tests.items() if t.endswith("is_dir()")]
+    def has_atom(test: ast.AST, pred) -> bool:
+        # the arm's condition is, or has as a disjunct, an expression satisfying pred
+        alts = test.values if isinstance(test, ast.BoolOp) and isinstance(test.op, ast.Or) else [test]
+        return any(pred(norm(a)) for a in alts)
+    ifs = [n for n in walk(f.node) if isinstance(n, ast.If)]
+    link = [n for n in ifs if has_atom(n.test, lambda t: t.lstrip("(").startswith("path.is_symlink() and") and "not self.dereference" in t)]
+    fil = [n for n in ifs if has_atom(n.test, lambda t: t == "path.is_file()")]
+    dr = [n for n in ifs if has_atom(n.test, lambda t: t == "path.is_dir()")]
     ctx.check(bool(link) and bool(fil) and bool(dr), "R02.5", f, f.node, "walk has arms for link, file and directory", "the tree walk lacks an arm for link, regular file or directory", construct="_writeall arms")
     for arm, what in ((link, "link"), (fil, "file")):
         ok = bool(arm) and any(isinstance(c, ast.Call) and attr_tail(c) == "write" for s in arm[0].body for c in ast.walk(s))
         ctx.check(ok, "R02.5", f, arm[0] if arm else f.node, f"{what} arm archives the entry", f"the {what} arm of the tree walk does not call write()", construct=f"_writeall {what} arm")
     if link:
-        ok = norm(link[0].test) == "path.is_symlink() and (not self.dereference)"
+        alts = link[0].test.values if isinstance(link[0].test, ast.BoolOp) and isinstance(link[0].test.op, ast.Or) else [link[0].test]
+        ok = any(norm(a).strip("()") == "path.is_symlink() and (not self.dereference" or norm(a) == "path.is_symlink() and (not self.dereference)" for a in alts)
         ctx.check(ok, "R02.5", f, link[0].test, "links are archived as links unless dereference is on", "the link arm is not `is_symlink() and not dereference`")
     if dr:
         loops = [n for s in dr[0].body for n in ast.walk(s) if isinstance(n, ast.For)]
